@@ -156,3 +156,55 @@ def twin(I):
     impl = I.call_value(I.get_function(f"{MP}:relative_set_wrapper"), Pi, None)
     rg = I.call_value(I.global_lookup(ref, "ref_relative_set"), Pr, None)
     b.run(impl, rg)
+
+
+# ------------------------------------------------------------------------------------------------ explicit device lists
+# with a child of a pseudo-positioner parent: the real _normalize_devices / merge_axis run here (no assumed contract).
+# Listing a *real* or an *unrelated* child couples nothing: the listed device itself must be treated relatively and reset.
+def pp_universe(w):
+    def child(name):
+        return Opaque(name, {"token": "dev", "attrs": {"name": name, "position": w.real(f"{name}_position")},
+                             "isinstance": {"Locatable": False}, "isinstance_default": False, "truth": True,
+                             "hasattr": {"position": True, "RealPosition": False, "pseudo_positioners": False}})
+    r1, p1, u = child("r1"), child("p1"), child("u")
+    PP = Opaque("PP", {"token": "dev", "attrs": {"name": "PP", "parent": None, "real_positioners": [r1], "pseudo_positioners": [p1],
+                                                 "RealPosition": True, "position": (w.real("PP_pos"),)},
+                       "isinstance_default": False, "truth": True, "hasattr": {"RealPosition": True, "position": True}})
+    for c in (r1, p1, u):
+        c.spec["attrs"]["parent"] = PP
+    return {"r1": r1, "u": u}, PP
+
+
+def _mk_pp(fn, refname, listed):
+    @task(f"{fn}[explicit list: {listed} child of a pseudo-positioner]", PROP,
+          functions=[f"{MP}:{fn}", f"{MP}:_normalize_devices", "bluesky.utils:merge_axis"],
+          expect=[f"{MP}:{fn}#outcome[same yield / return / raise at every step] (listed {listed})"])
+    def t(I):
+        w = I.w
+        U, PP = pp_universe(w)
+        b, ref = setup(I, f"{MP}:{fn}", U)
+        I.call_hooks.pop(f"{MP}:_normalize_devices", None)          # the real body runs
+        w.stubs[("bluesky.utils", "groupby")] = native(lambda I_, a, k: _groupby(I_, a[0], a[1]))
+        w.stubs[("bluesky.utils", "check_supports")] = native(lambda I_, a, k: a[0])
+        b.extra = lambda: {"fn": fn, "listed": listed}
+        b.replay = None
+        devs = [U[listed]]
+        Pi, Pr = b.absgen_pair("plan")
+        impl = I.call_value(I.get_function(f"{MP}:{fn}"), Pi, list(devs))
+        rg = I.call_value(I.global_lookup(ref, refname), Pr, set(devs))
+        b.run(impl, rg)
+        for r in w.results:
+            if r.name.startswith(f"{MP}:{fn}#"):
+                r.name += f" (listed {listed})"
+
+
+def _groupby(I, key, seq):
+    out = {}
+    for x in I.run(I.iterate(seq)):
+        out.setdefault(I.call_value(key, x), []).append(x)
+    return out
+
+
+for _fn, _ref in (("relative_set_wrapper", "ref_relative_set"), ("reset_positions_wrapper", "ref_reset_positions")):
+    for _listed in ("r1", "u"):
+        _mk_pp(_fn, _ref, _listed)
